@@ -109,19 +109,21 @@ theorem translateOffset_neg16 {ind : Bool} {row : InstrRow} {c i : Nat} {h : Opt
 
 theorem translateIndexed_offset {o : Operand} {r : InstrRow} {c i : Nat} {h : Option Nat} {m : Mode} {neg : Bool}
     {right : Str} (hc : r.ind = some c) (h0 : c ≠ 0) (hc' : c < 65536)
-    (hl : o.left = .val (.numeric i h m neg)) (hi : i ≠ 0) (hr : o.right = some right) :
+    (hl : o.left = .val (.numeric i h m neg)) (hi : i ≠ 0) (hr : o.right = some right)
+    (hvr : validIndexReg right = true) :
     translateIndexed o r = translateOffset false r (.numeric i h m neg) right (regBits right) := by
   obtain ⟨j, rfl⟩ : ∃ j, i = j + 1 := ⟨i - 1, by omega⟩
-  simp [translateIndexed, hc, h0, hl, hr, opVal_ok hc']
+  simp [translateIndexed, hc, h0, hl, hr, opVal_ok hc', hvr]
   rfl
 
 theorem translateExtInd_offset {o : Operand} {r : InstrRow} {c i : Nat} {h : Option Nat} {m : Mode} {neg : Bool}
     {right : Str} (hc : r.ind = some c) (h0 : c ≠ 0) (hc' : c < 65536) (hna : o.value.isAddress = false)
     (hnn : o.value.isNumeric = false)
-    (hl : o.left = .val (.numeric i h m neg)) (hi : i ≠ 0) (hr : o.right = some right) :
+    (hl : o.left = .val (.numeric i h m neg)) (hi : i ≠ 0) (hr : o.right = some right)
+    (hvr : validIndexReg right = true) :
     translateExtIndirect o r = translateOffset true r (.numeric i h m neg) right (0x80 ||| regBits right) := by
   obtain ⟨j, rfl⟩ : ∃ j, i = j + 1 := ⟨i - 1, by omega⟩
-  simp [translateExtIndirect, hc, h0, hl, hr, opVal_ok hc', hna, hnn]
+  simp [translateExtIndirect, hc, h0, hl, hr, opVal_ok hc', hna, hnn, hvr]
   rfl
 
 /-! ### the four index registers -/
@@ -133,6 +135,11 @@ theorem regName_plain : ∀ k, k < 4 → PlainReg (regName k) := by
   intro k hk
   have : k = 0 ∨ k = 1 ∨ k = 2 ∨ k = 3 := by omega
   rcases this with rfl | rfl | rfl | rfl <;> exact ⟨by decide, by decide, by decide⟩
+
+theorem regName_valid (k : Nat) : validIndexReg (regName k) = true := by
+  match k with
+  | 0 | 1 | 2 => rfl
+  | _ + 3 => rfl
 
 theorem regBits_regName : ∀ k, k < 4 → regBits (regName k) = 32 * k := by decide
 
@@ -153,7 +160,7 @@ theorem enc_off_pos5 {o : Operand} {r : InstrRow} {c i k : Nat} {h : Option Nat}
   have h0 := cell_ne_zero hlk (by decide)
   have hp : regBits (regName k) ||| i = 32 * k + i := by rw [regBits_regName k hk4, or_low k hk4 i (by omega)]
   have ht : translateOperand o r = translateIndexed o r := by simp [translateOperand, hk]
-  rw [translateIndexed_offset hc h0 (cell_lt hlk) hl (by omega) hr,
+  rw [translateIndexed_offset hc h0 (cell_lt hlk) hl (by omega) hr (regName_valid k),
     translateOffset_pos5 hc (cell_lt hlk) (regName_plain k hk4) h2 (by rw [hp]; omega), hp] at ht
   refine enc_idx_gen hlk ht rfl rfl rfl (by omega) rfl (by simp [hs]) ?_
   have a : 32 * k + i < 128 := by omega
@@ -171,7 +178,7 @@ theorem enc_off_neg5 {o : Operand} {r : InstrRow} {c i k : Nat} {h : Option Nat}
   have hp : regBits (regName k) ||| 0x10 ||| (0x10 - i) = 32 * k + (32 - i) := by
     rw [regBits_regName k hk4, Nat.or_assoc, or_neg5 i (by omega) h1, or_low k hk4 _ (by omega)]
   have ht : translateOperand o r = translateIndexed o r := by simp [translateOperand, hk]
-  rw [translateIndexed_offset hc h0 (cell_lt hlk) hl (by omega) hr,
+  rw [translateIndexed_offset hc h0 (cell_lt hlk) hl (by omega) hr (regName_valid k),
     translateOffset_neg5 hc (cell_lt hlk) (regName_plain k hk4) h2 (by rw [hp]; omega), hp] at ht
   refine enc_idx_gen hlk ht rfl rfl rfl (by omega) rfl (by simp [hs]) ?_
   have a : 32 * k + (32 - i) < 128 := by omega
@@ -232,7 +239,7 @@ theorem enc_off_pos8 (hk : o.kind = .indexed) (hc : r.ind = some c) (hlk : looku
   have hp : regBits (regName k) ||| ((if false = true then 0x90 else 0x80) + 0x08) = 128 + 32 * k + 8 := by
     rw [regBits_regName k hk4]; exact or_high k hk4 8 (by omega)
   have ht : translateOperand o r = translateIndexed o r := by simp [translateOperand, hk]
-  rw [translateIndexed_offset hc h0 (cell_lt hlk) hl (by omega) hr,
+  rw [translateIndexed_offset hc h0 (cell_lt hlk) hl (by omega) hr (regName_valid k),
     translateOffset_pos8 hc (cell_lt hlk) (regName_plain k hk4) (Or.inr h1) h2 (by rw [hp]; omega), hp] at ht
   have hf : fitsByte i false = true := by simp [fitsByte]; omega
   refine enc_idx_fit (ad := [byteField i false]) hpr hsp hlk ht rfl rfl rfl (by omega) rfl (.byte hf) (by simp [hs]) ?_
@@ -248,7 +255,7 @@ theorem enc_off_neg8 (hk : o.kind = .indexed) (hc : r.ind = some c) (hlk : looku
   have hp : regBits (regName k) ||| ((if false = true then 0x90 else 0x80) + 0x08) = 128 + 32 * k + 8 := by
     rw [regBits_regName k hk4]; exact or_high k hk4 8 (by omega)
   have ht : translateOperand o r = translateIndexed o r := by simp [translateOperand, hk]
-  rw [translateIndexed_offset hc h0 (cell_lt hlk) hl (by omega) hr,
+  rw [translateIndexed_offset hc h0 (cell_lt hlk) hl (by omega) hr (regName_valid k),
     translateOffset_neg8 hc (cell_lt hlk) (regName_plain k hk4) (Or.inr h1) (by omega) h2 (by rw [hp]; omega), hp] at ht
   have hf : fitsByte (0x100 - i) false = true := by simp [fitsByte]; omega
   refine enc_idx_fit (ad := [byteField (0x100 - i) false]) hpr hsp hlk ht rfl rfl rfl (by omega) rfl (.byte hf) (by simp [hs]) ?_
@@ -264,7 +271,7 @@ theorem enc_off_pos16 (hk : o.kind = .indexed) (hc : r.ind = some c) (hlk : look
   have hp : regBits (regName k) ||| ((if false = true then 0x90 else 0x80) + 0x09) = 128 + 32 * k + 9 := by
     rw [regBits_regName k hk4]; exact or_high k hk4 9 (by omega)
   have ht : translateOperand o r = translateIndexed o r := by simp [translateOperand, hk]
-  rw [translateIndexed_offset hc h0 (cell_lt hlk) hl (by omega) hr,
+  rw [translateIndexed_offset hc h0 (cell_lt hlk) hl (by omega) hr (regName_valid k),
     translateOffset_pos16 hc (cell_lt hlk) (regName_plain k hk4) h1 h2 (by rw [hp]; omega), hp] at ht
   have hf : fitsWord i false = true := by simp [fitsWord]; omega
   refine enc_idx_fit (ad := [wordField i false / 256, wordField i false % 256]) hpr hsp hlk ht rfl rfl rfl (by omega) rfl
@@ -281,7 +288,7 @@ theorem enc_off_neg16 (hk : o.kind = .indexed) (hc : r.ind = some c) (hlk : look
   have hp : regBits (regName k) ||| ((if false = true then 0x90 else 0x80) + 0x09) = 128 + 32 * k + 9 := by
     rw [regBits_regName k hk4]; exact or_high k hk4 9 (by omega)
   have ht : translateOperand o r = translateIndexed o r := by simp [translateOperand, hk]
-  rw [translateIndexed_offset hc h0 (cell_lt hlk) hl (by omega) hr,
+  rw [translateIndexed_offset hc h0 (cell_lt hlk) hl (by omega) hr (regName_valid k),
     translateOffset_neg16 hc (cell_lt hlk) (regName_plain k hk4) h1 h2 (by rw [hp]; omega), hp] at ht
   have hf : fitsWord (0x10000 - i) false = true := by simp [fitsWord]; omega
   refine enc_idx_fit (ad := [wordField (0x10000 - i) false / 256, wordField (0x10000 - i) false % 256]) hpr hsp hlk ht
@@ -299,7 +306,7 @@ theorem enc_ind_pos8 (hk : o.kind = .extIndirect) (hc : r.ind = some c) (hlk : l
   have hp : (0x80 ||| regBits (regName k)) ||| ((if true = true then 0x90 else 0x80) + 0x08) = 128 + 32 * k + 24 := by
     rw [regBits_regName k hk4]; exact or_high' k hk4 24 (by omega)
   have ht : translateOperand o r = translateExtIndirect o r := by simp [translateOperand, hk]
-  rw [translateExtInd_offset hc h0 (cell_lt hlk) hna hnn hl (by omega) hr,
+  rw [translateExtInd_offset hc h0 (cell_lt hlk) hna hnn hl (by omega) hr (regName_valid k),
     translateOffset_pos8 hc (cell_lt hlk) (regName_plain k hk4) (Or.inl rfl) h2 (by rw [hp]; omega), hp] at ht
   have hf : fitsByte i false = true := by simp [fitsByte]; omega
   refine enc_idx_fit (ad := [byteField i false]) hpr hsp hlk ht rfl rfl rfl (by omega) rfl (.byte hf) (by simp [hs]) ?_
@@ -316,7 +323,7 @@ theorem enc_ind_neg8 (hk : o.kind = .extIndirect) (hc : r.ind = some c) (hlk : l
   have hp : (0x80 ||| regBits (regName k)) ||| ((if true = true then 0x90 else 0x80) + 0x08) = 128 + 32 * k + 24 := by
     rw [regBits_regName k hk4]; exact or_high' k hk4 24 (by omega)
   have ht : translateOperand o r = translateExtIndirect o r := by simp [translateOperand, hk]
-  rw [translateExtInd_offset hc h0 (cell_lt hlk) hna hnn hl (by omega) hr,
+  rw [translateExtInd_offset hc h0 (cell_lt hlk) hna hnn hl (by omega) hr (regName_valid k),
     translateOffset_neg8 hc (cell_lt hlk) (regName_plain k hk4) (Or.inl rfl) h1 h2 (by rw [hp]; omega), hp] at ht
   have hf : fitsByte (0x100 - i) false = true := by simp [fitsByte]; omega
   refine enc_idx_fit (ad := [byteField (0x100 - i) false]) hpr hsp hlk ht rfl rfl rfl (by omega) rfl (.byte hf) (by simp [hs]) ?_
@@ -333,7 +340,7 @@ theorem enc_ind_pos16 (hk : o.kind = .extIndirect) (hc : r.ind = some c) (hlk : 
   have hp : (0x80 ||| regBits (regName k)) ||| ((if true = true then 0x90 else 0x80) + 0x09) = 128 + 32 * k + 25 := by
     rw [regBits_regName k hk4]; exact or_high' k hk4 25 (by omega)
   have ht : translateOperand o r = translateExtIndirect o r := by simp [translateOperand, hk]
-  rw [translateExtInd_offset hc h0 (cell_lt hlk) hna hnn hl (by omega) hr,
+  rw [translateExtInd_offset hc h0 (cell_lt hlk) hna hnn hl (by omega) hr (regName_valid k),
     translateOffset_pos16 hc (cell_lt hlk) (regName_plain k hk4) h1 h2 (by rw [hp]; omega), hp] at ht
   have hf : fitsWord i false = true := by simp [fitsWord]; omega
   refine enc_idx_fit (ad := [wordField i false / 256, wordField i false % 256]) hpr hsp hlk ht rfl rfl rfl (by omega) rfl
@@ -351,7 +358,7 @@ theorem enc_ind_neg16 (hk : o.kind = .extIndirect) (hc : r.ind = some c) (hlk : 
   have hp : (0x80 ||| regBits (regName k)) ||| ((if true = true then 0x90 else 0x80) + 0x09) = 128 + 32 * k + 25 := by
     rw [regBits_regName k hk4]; exact or_high' k hk4 25 (by omega)
   have ht : translateOperand o r = translateExtIndirect o r := by simp [translateOperand, hk]
-  rw [translateExtInd_offset hc h0 (cell_lt hlk) hna hnn hl (by omega) hr,
+  rw [translateExtInd_offset hc h0 (cell_lt hlk) hna hnn hl (by omega) hr (regName_valid k),
     translateOffset_neg16 hc (cell_lt hlk) (regName_plain k hk4) h1 h2 (by rw [hp]; omega), hp] at ht
   have hf : fitsWord (0x10000 - i) false = true := by simp [fitsWord]; omega
   refine enc_idx_fit (ad := [wordField (0x10000 - i) false / 256, wordField (0x10000 - i) false % 256]) hpr hsp hlk ht
@@ -360,5 +367,210 @@ theorem enc_ind_neg16 (hk : o.kind = .extIndirect) (hc : r.ind = some c) (hlk : 
   simp
 
 end fitted
+
+/-! ### numeric `n,PCR` and `[n,PCR]` (repair A9) -/
+
+/-- whether a numeric offset from the PC takes the 16-bit form: spelt in extended mode, or outside −128..127 -/
+def pcrWide (i : Nat) (m : Mode) (neg : Bool) : Bool := m == .extended || !(is8Bit i neg)
+
+theorem is4_or_is8 (i : Nat) (neg : Bool) : (is4Bit i neg || is8Bit i neg) = is8Bit i neg := by
+  cases neg <;> simp [is4Bit, is8Bit] <;> omega
+
+/-- the PCR branch of `translateOffset` on a plain number -/
+theorem translateOffset_pcr {ind : Bool} {row : InstrRow} {c i : Nat} {h : Option Nat} {m : Mode} {neg : Bool}
+    {raw0 : Nat} (hc : row.ind = some c) (hc' : c < 65536)
+    (hraw : raw0 ||| ((if ind then 0x90 else 0x80) + (if pcrWide i m neg then 0x0D else 0x0C)) < 256) :
+    translateOffset ind row (.numeric i h m neg) (str "PCR") raw0 =
+      .ok { opCode := opv c,
+            postByte := .numeric (raw0 ||| ((if ind then 0x90 else 0x80) + (if pcrWide i m neg then 0x0D else 0x0C)))
+              (some 2) .direct false,
+            additional := .numeric i h m neg,
+            size := row.indSz + (if pcrWide i m neg then 2 else 1),
+            maxSize := row.indSz + (if pcrWide i m neg then 2 else 1) } := by
+  have hp : hasSub ['+'] (str "PCR") = false := by decide
+  have hm' : hasSub ['-'] (str "PCR") = false := by decide
+  have hpcr : hasSub (str "PCR") (str "PCR") = true := by decide
+  have hn := numV_byte hraw
+  unfold pcrWide at hn hraw ⊢
+  by_cases hme : m = .extended
+  · subst hme
+    simp [translateOffset, hp, hm', hpcr, hc, opVal_ok hc', Value.isExpression, Value.isAddrExpr, Value.mode] at hn ⊢
+    simp [hn]
+    rfl
+  · have hme' : (m == Mode.extended) = false := by simpa using hme
+    cases h8 : is8Bit i neg
+    · have h4 : is4Bit i neg = false := by
+        have := is4_or_is8 i neg
+        rw [h8] at this
+        simpa using this
+      simp [translateOffset, hp, hm', hpcr, hc, opVal_ok hc', Value.isExpression, Value.isAddrExpr, Value.mode, hme',
+        h4, h8] at hn ⊢
+      simp [hn]
+      rfl
+    · simp [translateOffset, hp, hm', hpcr, hc, opVal_ok hc', Value.isExpression, Value.isAddrExpr, Value.mode, hme',
+        h8] at hn ⊢
+      simp [hn]
+      rfl
+
+
+theorem translateIndexed_pcr {o : Operand} {r : InstrRow} {c i : Nat} {h : Option Nat} {m : Mode} {neg : Bool}
+    (hc : r.ind = some c) (h0 : c ≠ 0) (hc' : c < 65536)
+    (hl : o.left = .val (.numeric i h m neg)) (hr : o.right = some (str "PCR")) :
+    translateIndexed o r = translateOffset false r (.numeric i h m neg) (str "PCR") 0 := by
+  have hv : validIndexReg (str "PCR") = true := by decide
+  have hpcr : hasSub (str "PCR") (str "PCR") = true := by decide
+  have hrb : regBits (str "PCR") = 0 := by decide
+  cases i <;> simp [translateIndexed, hc, h0, hl, hr, opVal_ok hc', hv, hpcr, hrb] <;> rfl
+
+theorem translateExtInd_pcr {o : Operand} {r : InstrRow} {c i : Nat} {h : Option Nat} {m : Mode} {neg : Bool}
+    (hc : r.ind = some c) (h0 : c ≠ 0) (hc' : c < 65536) (hna : o.value.isAddress = false)
+    (hnn : o.value.isNumeric = false)
+    (hl : o.left = .val (.numeric i h m neg)) (hr : o.right = some (str "PCR")) :
+    translateExtIndirect o r = translateOffset true r (.numeric i h m neg) (str "PCR") 0x80 := by
+  have hv : validIndexReg (str "PCR") = true := by decide
+  have hpcr : hasSub (str "PCR") (str "PCR") = true := by decide
+  have hrb : regBits (str "PCR") = 0 := by decide
+  cases i <;> simp [translateExtIndirect, hc, h0, hl, hr, opVal_ok hc', hna, hnn, hv, hpcr, hrb] <;> rfl
+
+/-- the decoder on a PC-relative post byte (`$8C`/`$9C`: 8-bit, `$8D`/`$9D`: 16-bit) -/
+theorem decode_pcr8 (ind : Bool) (b : Nat) (rest : Bytes) :
+    decodePostByte (((if ind then 0x90 else 0x80) + 0x0C) :: b :: rest) = some (.pcr (sext b 8) (ind = true) 8, 2) := by
+  cases ind <;> simp [decodePostByte_cons]
+theorem decode_pcr16 (ind : Bool) (hi lo : Nat) (rest : Bytes) :
+    decodePostByte (((if ind then 0x90 else 0x80) + 0x0D) :: hi :: lo :: rest) =
+      some (.pcr (sext (hi * 256 + lo) 16) (ind = true) 16, 3) := by
+  cases ind <;> simp [decodePostByte_cons]
+
+/-- the signed value of an 8-bit field -/
+theorem sext_byteField {i : Nat} {neg : Bool} (h : is8Bit i neg = true) :
+    sext (byteField i neg) 8 = (if neg then -(i : Int) else (i : Int)) := by
+  cases neg
+  · simp only [is8Bit, Bool.false_eq_true, if_false, decide_eq_true_eq] at h
+    simp only [byteField, Bool.false_eq_true, if_false]
+    exact sext8_pos h
+  · simp only [is8Bit, if_true, decide_eq_true_eq] at h
+    simp only [byteField, if_true]
+    by_cases h0 : i = 0
+    · subst h0; decide
+    · have : (256 - i) % 256 = 256 - i := by omega
+      rw [this]; exact sext8_neg (by omega) h
+
+theorem is8Bit_fits {i : Nat} {neg : Bool} (h : is8Bit i neg = true) : fitsByte i neg = true := by
+  cases neg <;> simp [is8Bit, fitsByte] at h ⊢ <;> omega
+
+section pcr
+variable {o : Operand} {r : InstrRow} {c i : Nat} {h : Option Nat} {m : Mode} {neg : Bool}
+  (hpr : r.isPseudo = false) (hsp : r.isSpecial = false)
+include hpr hsp
+
+/-- `n,PCR` (`ind = false`, an IndexedOperand) and `[n,PCR]` (`ind = true`, bracketed), 8-bit form: the literal is not
+spelt in extended mode and −128 ≤ n ≤ 127 -/
+theorem enc_pcr8 (ind : Bool) (hk : if ind then o.kind = .extIndirect ∧ o.value.isAddress = false ∧ o.value.isNumeric = false
+      else o.kind = .indexed)
+    (hc : r.ind = some c) (hlk : lookup c = some (opOf r.mnemonic, .idx))
+    (hs : r.indSz = opcodeLen c + 1) (hl : o.left = .val (.numeric i h m neg)) (hr : o.right = some (str "PCR"))
+    (hw : pcrWide i m neg = false) :
+    Encodes o r (.idx (.pcr (if neg then -(i : Int) else (i : Int)) (ind = true) 8)) := by
+  have h0 := cell_ne_zero hlk (by decide)
+  have h8 : is8Bit i neg = true := by
+    simp only [pcrWide, Bool.or_eq_false_iff, Bool.not_eq_false'] at hw; exact hw.2
+  have ht : translateOperand o r = translateOffset ind r (.numeric i h m neg) (str "PCR") (if ind then 0x80 else 0) := by
+    cases ind
+    · simp only [Bool.false_eq_true, if_false] at hk ⊢
+      simp only [translateOperand, hk]
+      exact translateIndexed_pcr hc h0 (cell_lt hlk) hl hr
+    · simp only [if_true] at hk ⊢
+      simp only [translateOperand, hk.1]
+      exact translateExtInd_pcr hc h0 (cell_lt hlk) hk.2.1 hk.2.2 hl hr
+  have hp : (if ind then 0x80 else 0) ||| ((if ind then 0x90 else 0x80) + (if pcrWide i m neg then 0x0D else 0x0C)) =
+      (if ind then 0x90 else 0x80) + 0x0C := by rw [hw]; cases ind <;> decide
+  rw [translateOffset_pcr hc (cell_lt hlk) (by rw [hp]; cases ind <;> decide), hp] at ht
+  simp only [hw, Bool.false_eq_true, if_false] at ht
+  refine enc_idx_fit (ad := [byteField i neg]) hpr hsp hlk ht rfl rfl rfl (by cases ind <;> decide) rfl
+    (.byte (is8Bit_fits h8)) (by simp [hs]) ?_
+  rw [decode_pcr8, sext_byteField h8]
+  simp
+
+/-- 16-bit form: the literal is spelt in extended mode, or n is outside −128..127 (−32768 ≤ n ≤ 65535) -/
+theorem enc_pcr16 (ind : Bool) (hk : if ind then o.kind = .extIndirect ∧ o.value.isAddress = false ∧ o.value.isNumeric = false
+      else o.kind = .indexed)
+    (hc : r.ind = some c) (hlk : lookup c = some (opOf r.mnemonic, .idx))
+    (hs : r.indSz = opcodeLen c + 1) (hl : o.left = .val (.numeric i h m neg)) (hr : o.right = some (str "PCR"))
+    (hw : pcrWide i m neg = true) (hf : fitsWord i neg = true) :
+    Encodes o r (.idx (.pcr (sext (wordField i neg) 16) (ind = true) 16)) := by
+  have h0 := cell_ne_zero hlk (by decide)
+  have ht : translateOperand o r = translateOffset ind r (.numeric i h m neg) (str "PCR") (if ind then 0x80 else 0) := by
+    cases ind
+    · simp only [Bool.false_eq_true, if_false] at hk ⊢
+      simp only [translateOperand, hk]
+      exact translateIndexed_pcr hc h0 (cell_lt hlk) hl hr
+    · simp only [if_true] at hk ⊢
+      simp only [translateOperand, hk.1]
+      exact translateExtInd_pcr hc h0 (cell_lt hlk) hk.2.1 hk.2.2 hl hr
+  have hp : (if ind then 0x80 else 0) ||| ((if ind then 0x90 else 0x80) + (if pcrWide i m neg then 0x0D else 0x0C)) =
+      (if ind then 0x90 else 0x80) + 0x0D := by rw [hw]; cases ind <;> decide
+  rw [translateOffset_pcr hc (cell_lt hlk) (by rw [hp]; cases ind <;> decide), hp] at ht
+  simp only [hw, if_true] at ht
+  refine enc_idx_fit (ad := [wordField i neg / 256, wordField i neg % 256]) hpr hsp hlk ht rfl rfl rfl
+    (by cases ind <;> decide) rfl (.word hf) (by simp [hs]) ?_
+  rw [decode_pcr16, hi_lo]
+  simp
+
+end pcr
+
+/-! ### the remaining branches of `translateOffset` (for the soundness theorem C12) -/
+
+/-- a constant offset before an auto increment / decrement register is refused -/
+theorem translateOffset_pm_reject {ind : Bool} {row : InstrRow} {left : Value} {right : Str} {raw0 : Nat}
+    (h : (hasSub ['+'] right || hasSub ['-'] right) = true) :
+    translateOffset ind row left right raw0 = .error .operandType := by
+  unfold translateOffset
+  simp only [h, if_true]
+  rfl
+
+/-- a non-negative offset above 65535 cannot be built -/
+theorem translateOffset_pos_big {ind : Bool} {row : InstrRow} {c i : Nat} {h : Option Nat} {m : Mode} {right : Str}
+    {raw0 : Nat} (hc : row.ind = some c) (hc' : c < 65536) (hr : PlainReg right) (hi : 65536 ≤ i)
+    (hraw : raw0 ||| ((if ind then 0x90 else 0x80) + 0x09) < 256) :
+    ∃ e, translateOffset ind row (.numeric i h m false) right raw0 = .error e := by
+  have h4 : (!ind && is4Bit i false) = false := by
+    have : ¬ i ≤ 15 := by omega
+    simp [is4Bit, this]
+  have h8 : ¬ i ≤ 127 := by omega
+  have hbig : numericOfInt (i : Int) (some 4) .none = .error .valueType := by
+    have : (i : Int) > 65535 := by omega
+    simp [numericOfInt, this]
+  refine ⟨.valueType, ?_⟩
+  simp [translateOffset, hr.noPlus, hr.noMinus, hr.noPcr, hc, opVal_ok hc', Value.isExpression, Value.isAddrExpr,
+    h4, is8Bit, h8, numV_byte hraw, hbig]
+  rfl
+
+/-- a negative offset below −128, whatever its magnitude: the 16-bit form with SOME numeric field (which
+`fit_operand_width` accepts or refuses) -/
+theorem translateOffset_neg16_any {ind : Bool} {row : InstrRow} {c i : Nat} {h : Option Nat} {m : Mode} {right : Str}
+    {raw0 : Nat} (hc : row.ind = some c) (hc' : c < 65536) (hr : PlainReg right)
+    (hlo : 129 ≤ i) (hraw : raw0 ||| ((if ind then 0x90 else 0x80) + 0x09) < 256) :
+    ∃ n' h' m' neg', translateOffset ind row (.numeric i h m true) right raw0 =
+      .ok { opCode := opv c, postByte := .numeric (raw0 ||| ((if ind then 0x90 else 0x80) + 0x09)) (some 2) .direct false,
+            additional := .numeric n' h' m' neg', size := row.indSz + 2, maxSize := row.indSz + 2,
+            needsRes := false } := by
+  have h4 : (!ind && is4Bit i true) = false := by
+    have : ¬ i ≤ 16 := by omega
+    simp [is4Bit, this]
+  have h8 : ¬ i ≤ 128 := by omega
+  have hle : ¬ ((65536 : Int) - (i : Int) > 65535) := by omega
+  obtain ⟨x, hx⟩ : ∃ x, numericOfInt ((65536 : Int) - (i : Int)) none .none = .ok x := by
+    simp [numericOfInt, hle]
+  have hxn : x.isNumeric = true := by
+    unfold numericOfInt at hx
+    rw [if_neg hle] at hx
+    simp only [Except.ok.injEq] at hx; subst hx; rfl
+  cases x with
+  | numeric n' h' m' neg' =>
+    refine ⟨n', h', m', neg', ?_⟩
+    simp [translateOffset, hr.noPlus, hr.noMinus, hr.noPcr, hc, opVal_ok hc', Value.isExpression, Value.isAddrExpr,
+      h4, is8Bit, h8, numV_byte hraw, hx]
+    rfl
+  | _ => simp [Value.isNumeric] at hxn
 
 end CoCo.Asm
